@@ -657,7 +657,9 @@ func (g *gen) behC08() M {
 			other = g.pick("o1", "o2")
 			params2 := []any{}
 			for i := 0; i < np; i++ {
-				if g.chance(0.2) {
+				if many && r == 0 {
+					params2 = append(params2, M{"null": g.chance(0.5), "cls": "empty"})
+				} else if g.chance(0.2) {
 					params2 = append(params2, M{"null": true})
 				} else {
 					params2 = append(params2, M{"null": false, "cls": "short"})
